@@ -26,7 +26,7 @@ def nnps_sum(a, b, k):
     R.lemma("nnps_range", params={"a": "Vec", "b": "Vec", "k": "Int"},
             requires=["k >= 0", "forall(i, 0, k, a[i] >= 0 and b[i] >= 0 and a[i] + b[i] > 0)"],
             ensures=["0 <= nnps_sum(a, b, k)", "nnps_sum(a, b, k) <= k"], induct=("k", "0"))
-    R.contract(NP + ".compute_nnps_distance", tags=("C10",), params={"nnps_matrix": "Mat", "v1": "Vec", "v2": "Vec"},
+    R.contract(NP + ".compute_nnps_distance", tags=("C10",), params={"nnps_matrix": "Mat", "v1": "Vec", "v2": "Vec"}, result="Real",
                requires=["len(v1) == len(v2)", "len(v1) >= 1"],
                ensures=["result == nnps_sum(dotv(v1, nnps_matrix), dotv(v2, nnps_matrix), len(v1)) / len(v1)"],
                use_exit=["nnps_vector_form(M_s1, M_s2, len(v1))"])
